@@ -117,6 +117,59 @@ theorem destructed_never_moved_into (sc : Scripts) (f : Nat) (item dest : Nat) (
       · simp [raise, emit]
       · simp [hdd, raise, emit]
 
+/-- **destructed_mover_never_linked** (move_object with a string destination).  The destination is resolved first -
+    its load runs create() hooks that may destruct the mover - and only then `this_object()` is tested: when the mover
+    is destructed after the load, the move does not succeed and leaves the structures exactly as the load left them (the
+    destructed mover is not linked into the room). -/
+theorem destructed_mover_never_linked (sc : Scripts) (f : Nat) (item : Nat) (b : Base) (w : World) (d : Nat)
+    (hok : (exec sc (f + 1) (.load b) w).out = .ok) (hv : (exec sc (f + 1) (.load b) w).val = some d)
+    (hd : ((exec sc (f + 1) (.load b) w).w.c.objs item).destructed = true) :
+    (exec sc (f + 2) (.moveStr item b) w).out ≠ .ok ∧
+    (exec sc (f + 2) (.moveStr item b) w).w.c = (exec sc (f + 1) (.load b) w).w.c := by
+  have e : exec sc (f + 2) (.moveStr item b) w =
+      (exec sc (f + 1) (.load b) w).andThen fun w v =>
+        match v with
+        | none => raise w errNoDest
+        | some d => exec sc (f + 1) (.move item d) w := rfl
+  rw [e]
+  simp only [R.andThen, hok, if_true, hv]
+  exact destructed_never_moved_into sc f item d _ (Or.inr hd)
+
+/-- **present_returns_member** (finding C08-F3, repaired by the third `fix:` commit).  Whatever the id() hooks do,
+    present(str, env) only ever returns the object asked for, and only while it is in `env`'s inventory. -/
+theorem present_returns_member (sc : Scripts) : ∀ (f : Nat) (env tgt : Nat) (cur : Option Nat) (w : World) (r : Nat),
+    (exec sc f (.present env tgt cur) w).out = .ok → (exec sc f (.present env tgt cur) w).val = some r →
+    r = tgt ∧ ((exec sc f (.present env tgt cur) w).w.c.objs r).super = some env := by
+  intro f
+  induction f with
+  | zero => intro env tgt cur w r h; simp [exec] at h
+  | succ f ih =>
+    intro env tgt cur w r
+    simp only [exec]
+    split
+    · intro _ h; simp at h
+    · rename_i ob
+      split
+      · intro h; simp [crashR] at h
+      · generalize exec sc f (.hook ob .id none) w = r1
+        unfold R.andThen
+        by_cases hok : r1.out = .ok
+        · simp only [hok, if_true]
+          by_cases h1 : (r1.w.c.objs ob).destructed = true
+          · simp [h1]
+          · by_cases h2 : (r1.w.c.objs ob).super = some env
+            · by_cases h3 : ob = tgt
+              · subst h3
+                simp only [h1, h2]
+                intro _ h
+                simp at h
+                subst h
+                exact ⟨rfl, by simpa using h2⟩
+              · simp only [h1, h2, h3]
+                simpa using ih env tgt _ _ r
+            · simp [h1, h2]
+        · intro h; simp [hok] at h
+
 /-- **remove_hash_precondition** (the weak spot named in the design).  remove_object_hash(ob) assigns
     `obj_table[h] = ob->next_hash` whatever find_obj_n found.  The precondition the code relies on is: `ob` is the live
     object registered under its name.  Under it exactly `ob` leaves its chain ... -/
@@ -311,6 +364,7 @@ example (cmds : List Cmd) :
       | .create => [.cl (.bp 0)]
       | .init => [.de i]
       | .mod => [.mvarg]
-      | .act => [.de i]) World.init cmds).c := reachable_inv _ cmds
+      | .act => [.de i]
+      | .id => [.mv i 1]) World.init cmds).c := reachable_inv _ cmds
 
 end NV.C08
